@@ -27,7 +27,7 @@ func (Driver) ID() string { return "C17" }
 const (
 	quickRegular, quickRisk       = 16, 4
 	thoroughRegular, thoroughRisk = 64, 16
-	quickTotal, thoroughTotal     = 200_000, 4_000_000
+	quickTotal, thoroughTotal     = 160_000, 4_000_000
 )
 
 func (Driver) Info() core.Info {
@@ -49,7 +49,8 @@ func (Driver) Info() core.Info {
 			"runtime/metrics heap and stack classes are an accurate account of the process's memory; the worker runs decoder calls on one goroutine",
 			"target types carry no optional-attribute annotations (documented as meaningful for conversion only); optional attributes appear in the bytes under attack",
 			"mon.WellFormed / cty.VerifWellFormed define well-formedness of values; type well-formedness = no NilType, optional names declared, attribute names NFC",
-			"the JSON value decoder is exercised only up to nesting depth x input length <= 2e7 (its quadratic memory use is a listed finding; beyond that it would exhaust the 4 GiB worker limit)",
+			"the JSON value decoder is exercised only up to nesting depth x input length <= 6e6 (quick) / 2e7 (thorough): its memory use is quadratic there (listed finding) and beyond that it would exhaust the 4 GiB worker limit",
+			"sets nested deeper than 10 are not generated (building them takes time exponential in the depth) and inputs holding a number with an exponent of 7+ digits are kept away from set and dynamic targets outside the corpus (listed finding: minutes and gigabytes); running time is not part of the statement and is not judged",
 		},
 		MinNontrivial: 20000,
 		MemLimitKB:    4 << 20,
